@@ -262,12 +262,12 @@ func propC02(c *Ctx) {
 		}
 	})
 	c.Rule("C02.R3", func() {
-		c.writersTable("C02.R3", "ophost/keeper.Keeper", "ProvenWithdrawals", setOf("Set"), []string{"(ophost/keeper.MsgServer).FinalizeTokenWithdrawal", "(ophost/keeper.Keeper).InitGenesis"})
+		c.writersTable("C02.R3", "ophost/keeper.Keeper", "ProvenWithdrawals", setOf("Set"), []string{"(ophost/keeper.MsgServer).FinalizeTokenWithdrawal", "(ophost.AppModule).InitGenesis"})
 		c.noCollSites("C02.R3", "ophost/keeper.Keeper", "ProvenWithdrawals", setOf("Remove", "Clear"))
 		rec := c.Method(hostKeeper, "Keeper", "RecordProvenWithdrawal")
 		eff := c.W.BuildEffects()
 		o := c.Ob("C02.R3", "callers of RecordProvenWithdrawal = {FinalizeTokenWithdrawal, InitGenesis}")
-		al := setOf("(ophost/keeper.MsgServer).FinalizeTokenWithdrawal", "(ophost/keeper.Keeper).InitGenesis")
+		al := setOf("(ophost/keeper.MsgServer).FinalizeTokenWithdrawal", "(ophost.AppModule).InitGenesis")
 		seen := map[string]bool{}
 		for _, f := range eff.Callers(rec) {
 			o.Sites++
@@ -614,12 +614,12 @@ func propC05(c *Ctx) {
 	})
 
 	c.Rule("C05.R3", func() {
-		c.writersTable("C05.R3", "ophost/keeper.Keeper", "BridgeConfigs", setOf("Set", "Remove", "Clear"), []string{"(ophost/keeper.Keeper).SetBridgeConfig"})
+		c.writersTable("C05.R3", "ophost/keeper.Keeper", "BridgeConfigs", setOf("Set", "Remove", "Clear"), []string{"(ophost/keeper.MsgServer).CreateBridge", "(ophost/keeper.MsgServer).UpdateProposer", "(ophost/keeper.MsgServer).UpdateChallenger", "(ophost/keeper.MsgServer).UpdateBatchInfo", "(ophost/keeper.MsgServer).UpdateOracleConfig", "(ophost/keeper.MsgServer).UpdateMetadata", "(ophost.AppModule).InitGenesis"})
 		eff := c.W.BuildEffects()
 		sbc := c.Method(hostKeeper, "Keeper", "SetBridgeConfig")
 		o := c.Ob("C05.R3", "callers of SetBridgeConfig = {CreateBridge, 5 Update* handlers, InitGenesis}")
 		al := setOf("(ophost/keeper.MsgServer).CreateBridge", "(ophost/keeper.MsgServer).UpdateProposer", "(ophost/keeper.MsgServer).UpdateChallenger",
-			"(ophost/keeper.MsgServer).UpdateBatchInfo", "(ophost/keeper.MsgServer).UpdateOracleConfig", "(ophost/keeper.MsgServer).UpdateMetadata", "(ophost/keeper.Keeper).InitGenesis")
+			"(ophost/keeper.MsgServer).UpdateBatchInfo", "(ophost/keeper.MsgServer).UpdateOracleConfig", "(ophost/keeper.MsgServer).UpdateMetadata", "(ophost.AppModule).InitGenesis")
 		seen := map[string]bool{}
 		for _, f := range eff.Callers(sbc) {
 			o.Sites++
@@ -655,7 +655,7 @@ func propC05(c *Ctx) {
 	})
 
 	c.Rule("C05.R4", func() {
-		c.writersTable("C05.R4", "ophost/keeper.Keeper", "OutputProposals", setOf("Remove", "Clear"), []string{"(ophost/keeper.Keeper).DeleteOutputProposal"})
+		c.writersTable("C05.R4", "ophost/keeper.Keeper", "OutputProposals", setOf("Remove", "Clear"), []string{"(ophost/keeper.MsgServer).DeleteOutput"})
 		d := c.Method(hostKeeper, "Keeper", "DeleteOutputProposal")
 		o := c.Ob("C05.R4", "DeleteOutputProposal: Remove(Join(bridgeId, outputIndex)) only when not yet final")
 		outV := "(collections.Map[K, V]).Get(k.OutputProposals, ctx, collections.Join(bridgeId, outputIndex)).0"
@@ -691,11 +691,11 @@ func propC05(c *Ctx) {
 	})
 
 	c.Rule("C05.R5", func() {
-		c.writersTable("C05.R5", "ophost/keeper.Keeper", "OutputProposals", setOf("Set"), []string{"(ophost/keeper.MsgServer).ProposeOutput", "(ophost/keeper.Keeper).InitGenesis"})
+		c.writersTable("C05.R5", "ophost/keeper.Keeper", "OutputProposals", setOf("Set"), []string{"(ophost/keeper.MsgServer).ProposeOutput", "(ophost.AppModule).InitGenesis"})
 		eff := c.W.BuildEffects()
 		sop := c.Method(hostKeeper, "Keeper", "SetOutputProposal")
 		o := c.Ob("C05.R5", "callers of SetOutputProposal = {ProposeOutput, InitGenesis}")
-		al := setOf("(ophost/keeper.MsgServer).ProposeOutput", "(ophost/keeper.Keeper).InitGenesis")
+		al := setOf("(ophost/keeper.MsgServer).ProposeOutput", "(ophost.AppModule).InitGenesis")
 		seen := map[string]bool{}
 		for _, f := range eff.Callers(sop) {
 			o.Sites++
